@@ -56,7 +56,7 @@ func scenarioClient(sp Spec, oc *Outcome) {
 	recC.slow = time.Duration(sp.SlowCbUs) * time.Microsecond
 	recS := NewRec()
 	wt := time.Duration(sp.WriteTimeout) * time.Millisecond
-	oc.BoundMs = float64(2*sp.WriteTimeout + 3000)
+	oc.BoundMs = sp.boundMs()
 	co := newCoord()
 	stopAll := make(chan struct{})
 	var written atomic.Int64
@@ -197,6 +197,7 @@ func scenarioClient(sp Spec, oc *Outcome) {
 	time.Sleep(5 * time.Millisecond)
 	oc.LeftFinal = stacks(waitNoLib(baseG, nil, 2*time.Second))
 	oc.FdFinal = waitFdBaseline(baseFd, time.Second)
+	finalRecheck(oc, baseG, baseFd)
 	oc.Events, oc.Counts, oc.Dropped = recC.Snapshot()
 	oc.Counts["written"] = int(written.Load())
 	if len(p.errs) > 0 {
